@@ -350,13 +350,10 @@ func roundtripHyp(format string, o migrate.ScannerOptions, delimiter string, dir
 			return false
 		}
 		for _, c := range cs {
+			// (reverse statements are unconstrained since fix ae3e356: every line gets the
+			// "--rollback: " prefix)
 			if !scanClosed(o, ";", c.cmd) || !commentOK(c.comment) {
 				return false
-			}
-			for _, r := range c.reverse {
-				if !commentOK(r) {
-					return false
-				}
 			}
 		}
 		return true
